@@ -34,7 +34,7 @@ Inductive step_case (w : world) (s : addr) (m : cmsg) (w' : world) (out : list (
 | SC_other :
     w_hub w' = w_hub w -> e_del (w_env w') = e_del (w_env w) ->
     Forall (fun sm => fst sm <> A_hub) out -> is_staking m = false ->
-    (forall to hm f, m <> MWasm to (WHub hm) f \/ to <> A_hub) ->
+    (forall hm f, m <> MWasm A_hub (WHub hm) f) ->
     step_case w s m w' out
 | SC_del v c e' :
     m = MDelegate v c -> do_delegate (w_env w) s v c = Some e' -> w' = set_env w e' -> out = [] ->
@@ -50,29 +50,31 @@ Lemma Forall_map_fst_ne {A} (to : addr) (o : list A) :
   to <> A_hub -> Forall (fun sm : addr * A => fst sm <> A_hub) (map (fun x => (to, x)) o).
 Proof. intros Hne. apply Forall_forall. intros sm Hi. apply in_map_iff in Hi. destruct Hi as (x & <- & _). exact Hne. Qed.
 
+Ltac neq_addr := let E := fresh "E" in intros E; vm_compute in E; discriminate E.
+
 Lemma step_msg_cases w s m w' out : step_msg w s m = Some (w', out) -> step_case w s m w' out.
 Proof.
   intros H. pose proof (step_msg_env_del _ _ _ _ _ H) as Hd. pose proof H as H0. apply step_msg_inv in H0.
   destruct H0 as [e' -> -> Hn | to wm funds e1 o -> Hsend Hc ->].
   - destruct m.
     + exfalso; eapply Hn; reflexivity.
-    + apply SC_other; auto; intros; left; discriminate.
+    + apply SC_other; auto; intros; discriminate.
     + cbn [w_env set_env] in Hd. eapply SC_del; eauto.
     + cbn [w_env set_env] in Hd. eapply SC_und; eauto.
     + cbn [w_env set_env] in Hd. eapply SC_red; eauto.
-    + apply SC_other; auto; intros; left; discriminate.
-    + apply SC_other; auto; intros; left; discriminate.
+    + apply SC_other; auto; intros; discriminate.
+    + apply SC_other; auto; intros; discriminate.
   - destruct Hc as [h hm h' -> -> Hw He -> | r rm r' -> _ Hw He -> | d dm d' -> -> Hw He ->
                    | g gm g' -> -> Hw He -> | t cm t' -> -> Hw He -> | t cm t' -> -> Hw He ->
                    | sm e' -> -> He -> -> | -> -> ->].
     + eapply SC_hub; eauto.
-    + apply SC_other; auto; [apply Forall_map_fst_ne; discriminate | intros; right; discriminate].
-    + apply SC_other; auto; [apply Forall_map_fst_ne; discriminate | intros; right; discriminate].
-    + apply SC_other; auto; [apply Forall_map_fst_ne; discriminate | intros; right; discriminate].
-    + apply SC_other; auto; [apply Forall_map_fst_ne; discriminate | intros; right; discriminate].
-    + apply SC_other; auto; [apply Forall_map_fst_ne; discriminate | intros; right; discriminate].
-    + apply SC_other; auto; [constructor | intros; right; discriminate].
-    + apply SC_other; auto; [constructor | intros; right; discriminate].
+    + apply SC_other; auto; [apply Forall_map_fst_ne; neq_addr | intros hm0 f0 E0; inversion E0].
+    + apply SC_other; auto; [apply Forall_map_fst_ne; neq_addr | intros hm0 f0 E0; inversion E0].
+    + apply SC_other; auto; [apply Forall_map_fst_ne; neq_addr | intros hm0 f0 E0; inversion E0].
+    + apply SC_other; auto; [apply Forall_map_fst_ne; neq_addr | intros hm0 f0 E0; inversion E0].
+    + apply SC_other; auto; [apply Forall_map_fst_ne; neq_addr | intros hm0 f0 E0; inversion E0].
+    + apply SC_other; auto; [constructor | intros hm0 f0 E0; inversion E0].
+    + apply SC_other; auto; [constructor | intros hm0 f0 E0; inversion E0].
 Qed.
 
 (** ** pending staking messages of the hub in the work stack *)
@@ -243,20 +245,21 @@ Proof.
     pose proof (hub_execute_books _ _ _ _ _ _ _ _ He) as (P & Q & _).
     split; intros Hp.
     + destruct (P Hp) as (h1 & Hs & Eq).
-      apply slashing_restores in Hs; [|cbn [w_env set_env]; rewrite Had; apply HE; exact Hw].
-      cbn [w_env set_env] in Hs.
+      apply slashing_restores in Hs;
+        [|change (w_env (set_env w e1)) with e1; rewrite Had; apply HE; exact Hw].
+      change (w_env (set_env w e1)) with e1 in Hs.
       split; [exact Hwf1|]. cbn [w_env w_hub set_hub set_env]. intros h0 E. inversion E; subst h0.
       rewrite pD_app, pU_app, pD_hub, pU_hub, RD, RU. lia.
     + destruct (Q Hp) as (A & B & C). split; [split|].
       * exact Hwf1.
-      * cbn [w_env w_hub set_hub set_env]. intros h0 E. inversion E; subst h0. rewrite Had.
+      * unfold Ent. cbn [w_env w_hub set_hub set_env]. intros h0 E. inversion E; subst h0. rewrite Had.
         unfold booked. rewrite A, B. apply HE. exact Hw.
       * apply Forall_app. split; [apply NoHubDU_hub; exact C|exact Hrest].
   - (* neither hub nor delegation table *)
     assert (Hnp : is_pricing_msg (s, m) = false).
     { unfold is_pricing_msg. cbn [snd]. destruct m as [to [hm| | | | | |] f| | | | | |]; try reflexivity.
-      destruct (Hnh to hm f) as [N|N]; [congruence|].
-      assert (E : (to =? A_hub) = false) by (apply N.eqb_neq; exact N). rewrite E. reflexivity. }
+      destruct (to =? A_hub) eqn:E; [|reflexivity]. apply N.eqb_eq in E. subst to.
+      exfalso. eapply Hnh. reflexivity. }
     rewrite Hnp. split; [discriminate|]. intros _. split; [split|].
     + eapply DelWf_same_del; eauto.
     + intros h E. rewrite Hh in E. rewrite (all_delegations_same_del _ _ A_hub Hd). apply HE. exact E.
@@ -297,9 +300,11 @@ Lemma run_two_phase : forall fuel w stk tr w' tr',
 Proof.
   induction fuel as [|f IH]; intros w stk tr w' tr' H.
   - destruct stk as [|[s m] rest]; cbn [run] in H; [|discriminate]. inversion H; subst.
-    exists []. rewrite app_nil_r. cbn [existsb]. splits; auto. intros; discriminate.
+    exists []. rewrite app_nil_r. cbn [existsb].
+    split; [reflexivity|]. split; [auto|]. intros HP. split; [discriminate|auto].
   - destruct stk as [|[s m] rest]; cbn [run] in H.
-    + inversion H; subst. exists []. rewrite app_nil_r. cbn [existsb]. splits; auto. intros; discriminate.
+    + inversion H; subst. exists []. rewrite app_nil_r. cbn [existsb].
+    split; [reflexivity|]. split; [auto|]. intros HP. split; [discriminate|auto].
     + bind_inv H as r Hr. destruct r as [w1 out]. cbn [fst snd] in H.
       destruct (IH _ _ _ _ _ H) as (ex1 & -> & IB & IP).
       exists ((s, m) :: ex1). rewrite <- app_assoc. split; [reflexivity|]. split.
@@ -341,7 +346,7 @@ Qed.
 (** ** histories *)
 Lemma step_entwf w o : EntWf w -> EntWf (fst (step w o)).
 Proof.
-  intros [Hwf HE]. destruct o; cbn [step].
+  intros [Hwf HE]. unfold EntWf, Ent. destruct o; cbn [step].
   - (* reset *) split; [apply DelWf_empty|]. intros h Hh. discriminate.
   - destruct (e_now (w_env w) + dt <=? 18446744073); cbn [fst]; [|split; assumption].
     split; cbn [w_env set_env w_hub].
@@ -362,7 +367,7 @@ Proof.
   - destruct (w_hub w) as [h|] eqn:Hh; cbn [fst]; [|split; assumption].
     split; [exact Hwf|]. cbn [w_hub set_hub w_env]. intros h0 E. inversion E; subst h0.
     change (booked (set_h_oldwait h (oldwait_put (h_oldwait h) (a, batch) amt))) with (booked h).
-    apply HE. reflexivity.
+    apply HE. exact Hh.
   - (* instantiate hub *) cbn [fst]. split; [exact Hwf|]. cbn [w_hub set_w_hub w_env]. intros h Hh.
     left. unfold hub_instantiate in Hh. check_inv Hh as Hf. inversion Hh; subst. reflexivity.
   - split; [exact Hwf|exact HE].
